@@ -417,6 +417,8 @@ def run_cross(case):
         tx = BS.dec2x(n, src)
         if e != BS.NUM:
             for p in places_for(len(e)):
+                if n < 0 and not 1 <= p <= 10:
+                    continue                                 # invalid places with a negative number: not explored
                 pe = BS.x2y(tx, src, dst, p)
                 expect(rec, 'cross-places', call(rec, fn, tx, float(p)), ex(pe), fn=fn, value=n, text=tx, places=p, sign=(n < 0),
                        rel=('short' if p < len(e) else 'fit'), path='direct')
@@ -532,7 +534,7 @@ def run_romanout(case):
         expect(rec, 'out-of-domain', call(rec, 'ROMAN', *a), val, fn='ROMAN', arg=a, path='direct')
         text = '=ROMAN(%s)' % ','.join('%r' % x for x in a)
         expect(rec, 'out-of-domain', cell(rec, text), val, fn='ROMAN', arg=a, path='cell', formula=text)
-    for tx in ('Vh', 'ciao', '1', 'X I'):
+    for tx in ('Vh', 'ciao', '1', 'MXZ'):
         expect(rec, 'out-of-domain', call(rec, 'ARABIC', tx), val, fn='ARABIC', arg=tx, path='direct')
         expect(rec, 'out-of-domain', cell(rec, '=ARABIC(B1)', {'B1': ('t', tx)}), val, fn='ARABIC', arg=tx, path='cell')
     expect(rec, 'arabic', call(rec, 'ARABIC', ''), ('n', 0.0), fn='ARABIC', n=0, text='', path='direct')
